@@ -30,12 +30,17 @@ inductive SOp
   | start
   | step (f : Option Nat)
   | reset
+  | dev (f : Option Nat) (p : Nat)   -- async_connect / async_accept / async_read_some / async_write_some on a device
+  | rawClose (f : Nat)               -- ::close(fd) by the application, then cancel_io_events(fd)
+  | reopen (f : Nat)                 -- a new socket pair whose descriptor gets the number device f had
   | bad
   deriving Inhabited
 
 structure Sock where
   isOpen : Bool := true
   pending : Nat := 0
+  reopenable : Bool := false  -- closed while run() was executing and no reset() since: its number is still free
+  gen : Nat := 0         -- incremented whenever the descriptor behind the device changes (closed, re-opened)
   kind : Nat := 0        -- 0 socket of a socketpair, 1 read end of a pipe, 2 write end of a pipe
   peer : Nat := 0        -- device index of the other end (pipes)
   deriving Inhabited
@@ -50,6 +55,7 @@ structure D where
   progs : List (List SOp) := []
   hprog : List Nat := []
   htimer : List (Option Nat) := []
+  hgen : List Nat := []       -- handler id -> generation of the device at the time the wait was issued
   socks : List Sock := []
   tobjs : List TObj := []
   now : Nat := 0
@@ -95,6 +101,14 @@ def parseSOp (w : String) : SOp :=
   | ["step"] => .step none
   | ["step", f] => match f.toNat? with | some f => .step (some f) | none => .bad
   | ["rs"] => .reset
+  | [op, f, p] =>
+    if op == "xc" || op == "xa" || op == "xr" || op == "xw" then
+      match p.toNat? with
+      | some p => if f == "x" || f == "y" then .dev none p else (match f.toNat? with | some f => .dev (some f) p | none => .bad)
+      | none => .bad
+    else .bad
+  | ["rx", f] => match f.toNat? with | some f => .rawClose f | none => .bad
+  | ["ro", f] => match f.toNat? with | some f => .reopen f | none => .bad
   | _ => .bad
 
 def sockFd (d : D) (f : Option Nat) : Option Nat :=
@@ -102,9 +116,12 @@ def sockFd (d : D) (f : Option Nat) : Option Nat :=
   | none => none
   | some f => if (d.socks.getD f {}).isOpen && f < d.socks.length then some f else none
 
+def closedSock (sk : Sock) (started : Bool) : Sock :=
+  { sk with isOpen := false, pending := 0, gen := sk.gen + 1, reopenable := started }
+
 /-- bookkeeping after an op that may have issued a token -/
-def noteIssue (d : D) (before : Nat) (p : Nat) (k : Option Nat) : D :=
-  if d.st.next > before then { d with hprog := d.hprog ++ [p], htimer := d.htimer ++ [k] } else d
+def noteIssue (d : D) (before : Nat) (p : Nat) (k : Option Nat) (g : Nat := 0) : D :=
+  if d.st.next > before then { d with hprog := d.hprog ++ [p], htimer := d.htimer ++ [k], hgen := d.hgen ++ [g] } else d
 
 /-- ops that may be issued from anywhere (driving thread or inside a handler) -/
 def doOp (d : D) : SOp → D
@@ -131,13 +148,42 @@ def doOp (d : D) : SOp → D
                             st := opStep d.st (.cancelTimer slot),
                             tobjs := d.tobjs.set k { (d.tobjs.getD k {}) with eventId := none } }
     | none => d
-  | .arm f e p => noteIssue { d with st := opStep d.st (.setIo (sockFd d f) e true .sysErr) } d.st.next p none
+  | .arm f e p =>
+    let g := match f with | some f => (d.socks.getD f {}).gen | none => 0
+    -- run directly (not polling) while the table still holds waits of the previous descriptor with this number, whose
+    -- canceler is still queued: the arm overtakes the cancel (mirror image of the overtaking finding); not judged
+    let d := match sockFd d f with
+      | some fd =>
+        let io := ioGet d.st.map fd
+        if !(d.st.polling || !d.st.reactorUp) && (io.rd.toList ++ io.wr.toList).any (fun t => d.hgen.getD t.id 0 != g)
+        then { d with stale := d.stale + 1 } else d
+      | none => d
+    noteIssue { d with st := opStep d.st (.setIo (sockFd d f) e true .sysErr) } d.st.next p none g
+  | .dev f p =>
+    -- device wrappers on an unusable descriptor (never opened / closed): dont_block fails with EBADF, posts the
+    -- handler once and the entry point returns (Props.bad_descriptor_completes_exactly_once); on a usable
+    -- descriptor these operations do real I/O, which the scenarios do not use
+    match sockFd d f with
+    | none => noteIssue { d with st := opStep d.st (.postEv .badf 0) } d.st.next p none
+    | some _ => { d with bad := true }
+  | .rawClose f =>
+    match sockFd d (some f) with
+    | some fd => { d with socks := d.socks.set f (closedSock (d.socks.getD f {}) d.started),
+                          st := opStep d.st (.cancelIo (some fd)) }
+    | none => d
+  | .reopen f =>
+    let sk := d.socks.getD f {}
+    -- only a number that was freed while the reactor already existed (and has not been re-created since) is known to
+    -- be still free: otherwise epoll_create / the interrupter pipe may have taken it
+    if f < d.socks.length && !sk.isOpen && sk.kind == 0 && sk.reopenable then
+      { d with socks := d.socks.set f { sk with isOpen := true, pending := 0, gen := sk.gen + 1, reopenable := false } }
+    else d
   | .ca f => { d with st := opStep d.st (.cancelIo (sockFd d (some f))) }
   | .cl f =>
     -- basic_io_device::close(): cancel(), then close the descriptor, fd_ = invalid_socket
     match sockFd d (some f) with
     | some fd => { d with st := opStep d.st (.cancelIo (some fd)),
-                          socks := d.socks.set f { (d.socks.getD f {}) with isOpen := false, pending := 0 } }
+                          socks := d.socks.set f (closedSock (d.socks.getD f {}) d.started) }
     | none => d
   | .pw f =>
     let sk := d.socks.getD f {}
@@ -160,10 +206,15 @@ def settle : Nat → D → D
       let item := d.st.running
       -- environment: a queued setter whose descriptor was closed meanwhile: epoll_ctl fails with EBADF,
       -- the poll/select reactors only update their tables
+      -- stale: the setter runs although the descriptor it was issued for has been closed meanwhile (also when the
+      -- number has been handed out again: then it arms the wrong descriptor)
       let staleNow := match item with
+        | some (.setter (some fd) _ t) => !(d.socks.getD fd {}).isOpen || d.hgen.getD t.id 0 != (d.socks.getD fd {}).gen
+        | _ => false
+      let closedNow := match item with
         | some (.setter (some fd) _ _) => !(d.socks.getD fd {}).isOpen
         | _ => false
-      let selOk := !(staleNow && d.backend == "epoll")
+      let selOk := !(closedNow && d.backend == "epoll")
       let d := if staleNow then { d with stale := d.stale + 1 } else d
       let d := { d with st := loopStep d.st { now := d.now, selOk := selOk, selErr := .badf } }
       match item with
@@ -190,7 +241,12 @@ def kernelReport (d : D) (fd : Nat) : Nat :=
   let io := ioGet d.st.map fd
   let sk := d.socks.getD fd {}
   let peerOpen := (d.socks.getD sk.peer {}).isOpen
+  -- a registration made for a descriptor that has been closed since (its canceler is still queued) while the number
+  -- has been handed out again: epoll's interest list is per open file, the entry vanished with the close, nothing is
+  -- reported; poll()/select() work on numbers and report the state of the new descriptor to the old wait
+  let oldReg := (io.rd.toList ++ io.wr.toList).any fun t => d.hgen.getD t.id 0 != sk.gen
   if !(io.curIn || io.curOut) then 0 else
+  if oldReg && d.backend == "epoll" then 0 else
   match backendOf d with
   | .select =>
     let r := io.curIn && (sk.pending > 0 || (sk.kind == 1 && !peerOpen))
@@ -239,7 +295,8 @@ def topOp (d : D) : SOp → D
     else d
   | .reset =>
     if d.st.phase == .stopped || d.st.phase == .failed || !d.started then
-      { d with st := opStep d.st .reset, started := false, resetHappened := true }
+      { d with st := opStep d.st .reset, started := false, resetHappened := true,
+               socks := d.socks.map fun sk => { sk with reopenable := false } }
     else d
   | .bad => { d with bad := true }
   | o => doOp d o
